@@ -196,6 +196,11 @@ def run_case(case):
         D = qutip.lindblad_dissipator(cs[0])
         lines.append("C07.super " + json.dumps({"kind": "dissipator2", "a": case["cs"][0]}))
         impl.append(to_rows(2 * D.full()))
+        # with a counting field whose factor e^{i chi} is a Gaussian unit, and with two different operators (model, doubled)
+        for zk, (zr, zi) in enumerate(((1, 0), (0, 1), (-1, 0), (0, -1))):
+            Dz = qutip.lindblad_dissipator(cs[0], cs[-1], chi=zk * np.pi / 2)
+            lines.append("C07.super " + json.dumps({"kind": "dissipator_chi2", "a": case["cs"][0], "b": case["cs"][-1], "z": [zr, zi]}))
+            impl.append(to_rows(np.round(2 * Dz.full(), 9)))
         D2 = qutip.lindblad_dissipator(cs[0], cs[-1]).full()
         a, b = csn[0], csn[-1]
         for X in basis_ops(n):
